@@ -1,6 +1,9 @@
 Forth.vo Forth.glob Forth.v.beautified Forth.required_vo: Forth.v 
 Forth.vio: Forth.v 
 Forth.vos Forth.vok Forth.required_vos: Forth.v 
-Extract_C19.vo Extract_C19.glob Extract_C19.v.beautified Extract_C19.required_vo: Extract_C19.v Forth.vo
-Extract_C19.vio: Extract_C19.v Forth.vio
-Extract_C19.vos Extract_C19.vok Extract_C19.required_vos: Extract_C19.v Forth.vos
+Proofs_C19.vo Proofs_C19.glob Proofs_C19.v.beautified Proofs_C19.required_vo: Proofs_C19.v Forth.vo
+Proofs_C19.vio: Proofs_C19.v Forth.vio
+Proofs_C19.vos Proofs_C19.vok Proofs_C19.required_vos: Proofs_C19.v Forth.vos
+Props_C19.vo Props_C19.glob Props_C19.v.beautified Props_C19.required_vo: Props_C19.v Forth.vo Proofs_C19.vo
+Props_C19.vio: Props_C19.v Forth.vio Proofs_C19.vio
+Props_C19.vos Props_C19.vok Props_C19.required_vos: Props_C19.v Forth.vos Proofs_C19.vos
